@@ -328,12 +328,24 @@ int main(int argc, char** argv) {
       if (e.races && !raceReported) {
         raceReported = true;
         vx::Exec withText = e;
-        if (cfg.inProcess) {
-          // replay this very schedule once in a forked child to capture the report text
-          vx::Config c2 = cfg;
-          c2.inProcess = false;
-          c2.captureStderr = true;
-          withText = ex.run(e.choices, c2, body);
+        if (cfg.inProcess && e.stderrText.empty() && !R.single_) {
+          // the reports of this worker process went to its stderr file (the runner redirects it): read what is there
+          const char* d = getenv("VERIF_RUN_DIR");
+          std::string path = std::string(d ? d : ".") + "/C06.w" + std::to_string(c.wid) + ".err";
+          FILE* f = fopen(path.c_str(), "r");
+          if (f) {
+            static long consumed = 0;
+            fseek(f, 0, SEEK_END);
+            long end = ftell(f);
+            if (consumed > end) consumed = 0;
+            fseek(f, consumed, SEEK_SET);
+            std::string t(end - consumed, 0);
+            size_t n = fread(&t[0], 1, t.size(), f);
+            t.resize(n);
+            consumed = end;
+            fclose(f);
+            withText.stderrText = t.substr(0, 20000);
+          }
         }
         const vx::Exec& e = withText;
         // key by the two access sites of the first report.  Exploration runs with symbolize=0 (spawning the
